@@ -140,7 +140,7 @@ def parse_obs(text):
     elif head.startswith("r path"):
         r["kind"] = "path"
         r["edges"] = [(int(a), int(b), int(c)) for a, b, c in EDGE.findall(head.split(" nodes")[0])]
-        tail = head.split(" nodes")[1]
+        tail = head.split(" nodes")[1].split(" acc ")[0]
         toks = tail.split()
         li = toks.index("len")
         r["nodes"] = [int(x) for x in toks[:li]]
